@@ -98,7 +98,7 @@ PROPS["C10"] = {
 }
 
 PROPS["C01"] = {
-    "gen": ["Pyramid"],
+    "gen": ["Pyramid", "WalkWorker"],
     "trusted_base": ["the multiprocessing model of DESIGN.md §3 (as for C03); queue FIFO order is abstracted away in the proof model (a receive may take any item in the pipe), which over-approximates the real behaviours",
                      "a tile filter is a deterministic function of the tile's position",
                      "termination of the parallel walk under fairness is observed on every explored schedule (hangs are detected by the simulator), not yet a theorem"],
